@@ -929,23 +929,65 @@ Section WithCfg.
     with_capacity v (Z.of_nat (List.length src)) ;;;
     building v (push_clones v src).
 
+  (* `self[i]` through Deref + Index: out of range panics *)
+  Definition index_at (v : nat) (i : Z) : M elem :=
+    es <- deref v ;;
+    match nth_error es (Z.to_nat i) with
+    | None => panic
+    | Some e => ret e
+    end.
+
+  (* usize `a + b`: panics in a debug build, wraps in an optimized one (as Eval.arith) *)
+  Definition uadd (a b : Z) : M Z :=
+    let r := a + b in
+    if r <? W64 then ret r else if release cfg then ret (r - W64) else panic.
+
+  (* src/clone.rs: `for i in 0..self.len() { copy.push(self[i].clone()) }` as the translator renders a
+     range loop: `while i < hi { copy.push(self[i].clone()); i += 1 }` (EquivClone.v ties the regenerated
+     loop to this one; fuel exhaustion = the loop does not end) *)
+  Fixpoint clone_go (v w : nat) (fuel : nat) (i hi : Z) : M unit :=
+    if i <? hi then
+      match fuel with
+      | O => fun s => (OutOfFuel, s)
+      | S fuel =>
+          es <- deref v ;;
+          match nth_error es (Z.to_nat i) with
+          | None => panic
+          | Some e => c <- clone_elem e ;; push w c ;;; i' <- uadd i 1 ;; clone_go v w fuel i' hi
+          end
+      end
+    else ret tt.
+
+  (* the body of clone() after `let mut copy = MiniVec::new()`: reserve, then the loop (the length is
+     read again for the loop bound, as the source does) *)
+  Definition clone_fill (v w : nat) : M unit :=
+    l <- len v ;;
+    reserve w l ;;;
+    l2 <- len v ;;
+    clone_go v w (Z.to_nat l2) 0 l2.
+
   Definition clone_vec (v w : nat) : M unit :=
     d <- is_default v ;;
     if d then new_vec w else
     new_vec w ;;;
-    building w
-      (l <- len v ;;
-       reserve w l ;;;
-       (fix go (n : nat) (i : Z) : M unit :=
-          match n with
-          | O => ret tt
-          | S n =>
-              es <- deref v ;;
-              match nth_error es (Z.to_nat i) with
-              | None => panic
-              | Some e => c <- clone_elem e ;; push w c ;;; go n (i + 1)
-              end
-          end) (Z.to_nat l) 0).
+    building w (clone_fill v w).
+
+  (* a local `MiniVec::new()` inside a translated body: a new object of the world, under the first unused
+     name *)
+  Definition new_obj : M nat :=
+    s <- get ;;
+    let w := List.length (vecs s) in
+    new_vec w ;;; ret w.
+
+  (* the body of `impl Clone for MiniVec` as written (EquivClone.v); clone_vec above is this body with the
+     name of the result given in advance and with Rust's unwinding glue: the local `copy` is dropped when
+     the body unwinds (`building`) *)
+  Definition clone_body (v : nat) : M nat :=
+    d <- is_default v ;;
+    if d then new_obj else
+    w <- new_obj ;;
+    clone_fill v w ;;;
+    ret w.
 
   (* bounds of a range argument *)
   Inductive bound := BIncl (n : Z) | BExcl (n : Z) | BUnb.
@@ -1339,10 +1381,6 @@ Section WithCfg.
     f <- filter_of i ;; iter_set i (Some (IFilter (with_f f (f_new f) p (f_panicked f) (f_pred f)))).
   Definition set_filter_new (i : nat) (n : Z) : M unit :=
     f <- filter_of i ;; iter_set i (Some (IFilter (with_f f n (f_pos f) (f_panicked f) (f_pred f)))).
-  (* usize `a + b`: panics in a debug build, wraps in an optimized one (as Eval.arith) *)
-  Definition uadd (a b : Z) : M Z :=
-    let r := a + b in
-    if r <? W64 then ret r else if release cfg then ret (r - W64) else panic.
   (* (self.pred)(&mut *p): one answer of the object's script *)
   Definition filter_pred_at (i : nat) (p : eptr) : M bool :=
     f <- filter_of i ;;
